@@ -127,9 +127,12 @@ func c19one(t *testing.T, out *verifh.Out, r *rand.Rand, dir string) {
 		failHost, failOp := "", ""
 		if r.Intn(4) == 0 {
 			failHost = all[1+r.Intn(5)]
-			failOp = []string{"set_flush", "set_sync_binlog", "get_repl_settings", "delete"}[r.Intn(4)]
+			failOp = []string{"set_flush", "set_sync_binlog", "get_repl_settings", "delete", "get_state"}[r.Intn(5)]
 			if failOp == "delete" {
 				wd.AddFault("dcs:optimization_nodes/"+failHost, "delete", 0, "err")
+			} else if failOp == "get_state" {
+				// the registry entry of one host cannot be read: the sync must not act on a partial picture
+				wd.AddFault("dcs:optimization_nodes/"+failHost, "get", 0, "err")
 			} else {
 				wd.AddFault(failHost, failOp, 0, "err:1105")
 			}
